@@ -1,11 +1,743 @@
+// C08 — the SQL generated for LogQL metric queries computes the defined aggregates.
+//
+// For every metric query of a bounded grammar (gen.go), every database of a bounded family and every (from, to, step),
+// the query text goes through the REAL parser and logql_transpiler_v2.Plan, and the resulting processor chain is
+// executed exactly as QueryRangeService.prepareOutput executes it: FixPeriodPlanner → ZeroEaterPlanner →
+// ClickhouseGetterPlanner, whose database is a database/sql driver that runs every statement with the
+// ClickHouse-subset interpreter verif/mc/chsim on the case's tables (impl.go).  The (label set, timestamp, value)
+// points that come out are compared with a direct evaluator of the property statement (oracle.go).
+//
+// Process model: the matrix post-processors run in goroutines of their own, where a panic cannot be recovered by the
+// caller, so cases are evaluated in worker subprocesses (one per core, case i goes to worker i mod N).  A worker
+// journals the index of the case it is about to run; when a worker dies the parent re-runs the journalled case alone
+// three times and reports it as a violation only if it dies every time, then restarts the shard behind it.
 package main
 
 import (
+	"bufio"
+	"encoding/binary"
+	"encoding/json"
+	"errors"
 	"flag"
 	"fmt"
 	"os"
+	"os/exec"
+	"path/filepath"
+	"runtime"
+	"runtime/debug"
+	"runtime/pprof"
+	"sort"
+	"strings"
+	"sync"
+	"time"
+
+	"verif/mc/chsim"
+	"verif/mc/ev"
 )
 
+type deviant struct {
+	class   string
+	set     func(*Rules)
+	applies func(q *Query, p Params) bool
+}
+
+func decimals(c *Cmp) int {
+	if c == nil {
+		return 0
+	}
+	if i := strings.IndexByte(c.Val, '.'); i >= 0 {
+		return len(c.Val) - i - 1
+	}
+	return 0
+}
+
+// documented deviant rules (known-finding classifiers, DESIGN §7)
+var deviants = []deviant{
+	{"shortcut_15s_drops_pipeline_stages", func(r *Rules) { r.ShortcutDropsStages = true },
+		func(q *Query, p Params) bool { return shortcutApplies(q) && len(q.Stages) > 0 }},
+	{"bytes_over_time_divided_by_range", func(r *Rules) { r.BytesOverTimeDivRange = true },
+		func(q *Query, p Params) bool { return q.Fn == "bytes_over_time" }},
+	{"vector_agg_without_grouping_keeps_series", func(r *Rules) { r.VectorAggKeepsSeries = true },
+		func(q *Query, p Params) bool { return q.Agg != "" && q.AGroup == nil }},
+	{"unwrap_label_kept_in_series_identity", func(r *Rules) { r.UnwrapLabelKept = true },
+		func(q *Query, p Params) bool { return q.unwrapLabel() != "" && (q.RGroup == nil || !q.RGroup.By) }},
+	{"unwrap_missing_or_nonnumeric_counts_as_zero", func(r *Rules) { r.UnwrapInvalidAsZero = true },
+		func(q *Query, p Params) bool { return q.unwrapLabel() != "" }},
+	{"shortcut_15s_range_not_multiple_of_15s", func(r *Rules) { r.Shortcut15sGrid = true },
+		func(q *Query, p Params) bool { return shortcutApplies(q) && q.RangeS%15 != 0 }},
+	{"line_filter_neg_regex_negation_lost", func(r *Rules) { r.NegRegexLineLost = true },
+		func(q *Query, p Params) bool {
+			for _, s := range q.Stages {
+				if s.Kind == "line" && s.Op == "!~" {
+					return true
+				}
+			}
+			return false
+		}},
+	{"comparison_threshold_rounded_to_6_decimals", func(r *Rules) { r.CmpThreshold6Decimals = true },
+		func(q *Query, p Params) bool {
+			return decimals(q.RCmp) > 6 || decimals(q.ACmp) > 6 || decimals(q.TCmp) > 6
+		}},
+}
+
+type outcome struct {
+	class    []string // violation classes (empty = none)
+	what     string
+	outcome  string
+	planErr  string
+	unsupp   string
+	harness  string
+	nonEmpty bool
+	shortcut bool
+	stmts    int
+}
+
+func evaluate(spec caseSpec, verbose bool) (out outcome) {
+	d := dbIndex[spec.DB]
+	if d == nil {
+		out.harness = "unknown database " + spec.DB
+		return
+	}
+	q := spec.Query
+	impl := runImpl(spec.Text, spec.Params, d.chdb(), spec.Cluster)
+	out.stmts = len(impl.sql)
+	if verbose {
+		fmt.Println("LogQL:   ", spec.Text)
+		fmt.Printf("window:   from=T0+%ds to=T0+%ds step=%dms range=%ds cluster=%v\n", spec.Params.FromS, spec.Params.ToS, spec.Params.StepMs, q.RangeS, spec.Cluster)
+		fmt.Println("database:", spec.DB)
+		for _, e := range d.Entries {
+			s := d.Streams[e.Stream]
+			fmt.Printf("   %s type=%d ts=%s %s\n", canon(s.Labels), s.Type, tsText(e.TS), e.Line)
+		}
+		for _, s := range impl.sql {
+			fmt.Println("SQL:", s)
+		}
+	}
+	switch {
+	case impl.harness != nil:
+		out.harness = impl.harness.Error()
+		return
+	case impl.unsupp != nil:
+		out.unsupp = impl.unsupp.Error()
+		out.outcome = "chsim_unsupported"
+		return
+	case impl.planErr != nil:
+		out.planErr = impl.planErr.Error()
+		out.outcome = "planner_error"
+		return
+	case impl.chErr != nil:
+		var se *chsim.SyntaxError
+		var ee *chsim.EvalError
+		c := "generated_sql_rejected"
+		if errors.As(impl.chErr, &se) {
+			c = "generated_sql_syntax_error"
+		} else if errors.As(impl.chErr, &ee) {
+			c = "generated_sql_rejected_" + ee.Code
+		}
+		out.class = []string{c + ":" + q.Shape()}
+		out.outcome = c
+		out.what = fmt.Sprintf("ClickHouse rejects the SQL generated for %s: %v", spec.Text, impl.chErr)
+		return
+	case impl.procErr != nil:
+		out.class = []string{"process_error:" + q.Shape()}
+		out.outcome = "process_error"
+		out.what = fmt.Sprintf("%s: error entry in the result: %v", spec.Text, impl.procErr)
+		return
+	}
+	if len(impl.sql) > 0 {
+		out.shortcut = strings.Contains(impl.sql[0], "countMerge")
+	}
+	ref, err := Rules{}.Eval(d, q, spec.Params)
+	if err != nil {
+		out.harness = "oracle: " + err.Error()
+		return
+	}
+	out.nonEmpty = ref.nonEmpty()
+	sortPoints(impl.points)
+	if verbose {
+		fmt.Println("reference (series bucket:value ...):", ref.text())
+		fmt.Println("implementation points:")
+		for _, p := range impl.points {
+			fmt.Printf("   %s fp=%d t=%s v=%g\n", p.Labels, p.FP, tsText(p.T), p.V)
+		}
+	}
+	kind, diff := compare(ref, impl.points, spec.Params)
+	if kind == "" {
+		if out.nonEmpty {
+			out.outcome = "agree_nonempty"
+		} else {
+			out.outcome = "agree_empty"
+		}
+		return
+	}
+	// explanation search: the smallest set of documented deviant rules under which the reference agrees
+	var app []int
+	for i, dv := range deviants {
+		if dv.applies(q, spec.Params) {
+			app = append(app, i)
+		}
+	}
+	best, bestBits := -1, 0
+	for mask := 1; mask < 1<<len(app); mask++ {
+		bits := 0
+		for i := range app {
+			if mask&(1<<i) != 0 {
+				bits++
+			}
+		}
+		if best >= 0 && bits >= bestBits {
+			continue
+		}
+		var rules Rules
+		for i, di := range app {
+			if mask&(1<<i) != 0 {
+				deviants[di].set(&rules)
+			}
+		}
+		dref, err := rules.Eval(d, q, spec.Params)
+		if err != nil {
+			continue
+		}
+		if k, _ := compare(dref, impl.points, spec.Params); k == "" {
+			best, bestBits = mask, bits
+		}
+	}
+	where := fmt.Sprintf("%s on %s from=%ds to=%ds step=%dms", spec.Text, spec.DB, spec.Params.FromS, spec.Params.ToS, spec.Params.StepMs)
+	if best >= 0 {
+		for i, di := range app {
+			if best&(1<<i) != 0 {
+				out.class = append(out.class, deviants[di].class)
+			}
+		}
+		out.outcome = "deviant:" + strings.Join(out.class, "+")
+		out.what = fmt.Sprintf("%s: %s (the reference agrees under deviant rule %s)", where, diff, strings.Join(out.class, "+"))
+		return
+	}
+	out.class = []string{"unexplained_" + kind + ":" + q.Shape()}
+	out.outcome = "unexplained_" + kind
+	out.what = where + ": " + diff
+	return
+}
+
+// ---------------------------------------------------------------------------------------------------------------
+// worker side
+// ---------------------------------------------------------------------------------------------------------------
+
+type example struct {
+	Idx  int      `json:"idx"`
+	What string   `json:"what"`
+	Spec caseSpec `json:"spec"`
+}
+
+type classAcc struct {
+	Count    int       `json:"count"`
+	Examples []example `json:"examples"`
+}
+
+type shapeAcc struct {
+	Count   int    `json:"count"`
+	Example string `json:"example"`
+	Idx     int    `json:"idx"`
+}
+
+type summary struct {
+	Shard       int                  `json:"shard"`
+	Evaluated   int                  `json:"evaluated"` // cases looked at (incl. planner errors)
+	Executed    int64                `json:"executed"`  // cases run end to end and compared
+	Statements  int64                `json:"statements"`
+	Shortcut    int64                `json:"shortcut"`
+	NonEmpty    int64                `json:"non_empty"`
+	Outcomes    map[string]int64     `json:"outcomes"`
+	Classes     map[string]*classAcc `json:"classes"`
+	Unsupported map[string]*shapeAcc `json:"unsupported"`
+	ChsimUnsupp int                  `json:"chsim_unsupported"`
+	ChsimFirst  string               `json:"chsim_first"`
+	Harness     int                  `json:"harness"`
+	HarnessMsg  string               `json:"harness_first"`
+	Layers      map[string]int       `json:"layers"`
+	Samples     []map[string]any     `json:"samples"`
+	NextIdx     int                  `json:"next_idx"` // first case index of this shard NOT evaluated (deadline), -1 = shard finished
+}
+
+func newSummary(shard int) *summary {
+	return &summary{Shard: shard, Outcomes: map[string]int64{}, Classes: map[string]*classAcc{}, Unsupported: map[string]*shapeAcc{},
+		Layers: map[string]int{}, NextIdx: -1}
+}
+
+const maxExamples = 3
+
+func (s *summary) record(c caseSpec, o *outcome) {
+	s.Evaluated++
+	s.Layers[c.Layer]++
+	switch {
+	case o.harness != "":
+		s.Harness++
+		if s.HarnessMsg == "" {
+			s.HarnessMsg = c.Text + " on " + c.DB + ": " + o.harness
+		}
+		return
+	case o.unsupp != "":
+		s.ChsimUnsupp++
+		if s.ChsimFirst == "" {
+			s.ChsimFirst = c.Text + ": " + o.unsupp
+		}
+		return
+	case o.planErr != "":
+		sh := c.Query.Shape()
+		a := s.Unsupported[sh]
+		if a == nil {
+			a = &shapeAcc{Example: c.Text + " => " + o.planErr, Idx: c.Idx}
+			s.Unsupported[sh] = a
+		}
+		a.Count++
+		s.Outcomes["planner_error"]++
+		return
+	}
+	s.Executed++
+	s.Statements += int64(o.stmts)
+	if o.shortcut {
+		s.Shortcut++
+	}
+	s.Outcomes[o.outcome]++
+	if o.nonEmpty {
+		s.NonEmpty++
+	}
+	if len(o.class) == 0 && o.nonEmpty && len(s.Samples) < 2 {
+		s.Samples = append(s.Samples, map[string]any{"logql": c.Text, "database": c.DB, "params": c.Params, "outcome": o.outcome})
+	}
+	for _, cl := range o.class {
+		a := s.Classes[cl]
+		if a == nil {
+			a = &classAcc{}
+			s.Classes[cl] = a
+		}
+		a.Count++
+		if len(a.Examples) < maxExamples {
+			a.Examples = append(a.Examples, example{c.Idx, o.what, c})
+		}
+	}
+}
+
+func workerMain(thorough bool, shard, of, from int, deadline int64, journal string) {
+	debug.SetGCPercent(400)
+	g := generate(thorough, func(i int) bool { return i >= from && i%of == shard }, false)
+	var jf *os.File
+	if journal != "" {
+		f, err := os.OpenFile(journal, os.O_CREATE|os.O_WRONLY, 0o644)
+		if err != nil {
+			fmt.Fprintln(os.Stderr, "journal:", err)
+			os.Exit(2)
+		}
+		jf = f
+	}
+	sum := newSummary(shard)
+	var buf [8]byte
+	for n, c := range g.cases {
+		if deadline > 0 && n%32 == 0 && time.Now().UnixNano() > deadline {
+			sum.NextIdx = c.Idx
+			break
+		}
+		if jf != nil {
+			binary.LittleEndian.PutUint64(buf[:], uint64(c.Idx)+1)
+			jf.WriteAt(buf[:], 0)
+		}
+		o := evaluate(c, false)
+		sum.record(c, &o)
+	}
+	if jf != nil {
+		binary.LittleEndian.PutUint64(buf[:], 0)
+		jf.WriteAt(buf[:], 0)
+	}
+	w := bufio.NewWriter(os.Stdout)
+	b, _ := json.Marshal(sum)
+	w.WriteString("C08SUMMARY ")
+	w.Write(b)
+	w.WriteString("\n")
+	w.Flush()
+}
+
+// ---------------------------------------------------------------------------------------------------------------
+// parent side
+// ---------------------------------------------------------------------------------------------------------------
+
+type shardState struct {
+	shard   int
+	from    int
+	sums    []*summary
+	crashes []int
+	err     error
+}
+
+func readJournal(path string) int {
+	b, err := os.ReadFile(path)
+	if err != nil || len(b) < 8 {
+		return -1
+	}
+	return int(binary.LittleEndian.Uint64(b[:8])) - 1
+}
+
+func runWorker(self string, thorough bool, shard, of, from int, deadline int64, journal string) (*summary, string, error) {
+	os.Remove(journal)
+	args := []string{"--worker", "--shard", fmt.Sprint(shard), "--of", fmt.Sprint(of), "--from", fmt.Sprint(from), "--deadline", fmt.Sprint(deadline), "--journal", journal}
+	if thorough {
+		args = append(args, "--tier", "thorough")
+	}
+	cmd := exec.Command(self, args...)
+	cmd.Env = append(os.Environ(), "GOMAXPROCS=2")
+	var stderr strings.Builder
+	cmd.Stderr = &stderr
+	out, err := cmd.Output()
+	for _, line := range strings.Split(string(out), "\n") {
+		if strings.HasPrefix(line, "C08SUMMARY ") {
+			var s summary
+			if e := json.Unmarshal([]byte(line[len("C08SUMMARY "):]), &s); e != nil {
+				return nil, stderr.String(), e
+			}
+			return &s, stderr.String(), nil
+		}
+	}
+	if err == nil {
+		err = errors.New("worker ended without a summary")
+	}
+	return nil, stderr.String(), err
+}
+
+func tail(s string, n int) string {
+	lines := strings.Split(strings.TrimSpace(s), "\n")
+	if len(lines) > n {
+		lines = lines[:n]
+	}
+	return strings.Join(lines, " | ")
+}
+
+func main() {
+	if len(os.Args) > 1 && os.Args[1] == "probe" {
+		probe(os.Args[2:])
+		return
+	}
+	worker := flag.Bool("worker", false, "internal: worker process")
+	shard := flag.Int("shard", 0, "internal")
+	of := flag.Int("of", 1, "internal")
+	from := flag.Int("from", 0, "internal")
+	deadline := flag.Int64("deadline", 0, "internal")
+	journal := flag.String("journal", "", "internal")
+	one := flag.Int("one", -1, "internal: run a single case by index (crash confirmation)")
+	r := ev.Start("C08", "model_checking", 75*time.Second, 17*time.Minute)
+	if *worker {
+		workerMain(r.Thorough(), *shard, *of, *from, *deadline, *journal)
+		return
+	}
+	if *one >= 0 {
+		g := generate(r.Thorough(), func(i int) bool { return i == *one }, false)
+		if len(g.cases) != 1 {
+			os.Exit(2)
+		}
+		evaluate(g.cases[0], false)
+		return
+	}
+	r.Rule = "five layers, each a full product consumed to the end: L1 {rate, count_over_time, bytes_rate, bytes_over_time} x pipelines {none, line filter |= != |~, label filter = != >} and " +
+		"{rate, sum/avg/min/max/first/last_over_time} on `| json v=\"v\" | unwrap v` x {none, line filter, label filter before json, numeric label filter on the extracted label} x range {5s,10s,15s,1m} x (from,to) on/off bucket boundaries x step {range/2, range, 2*range} " +
+		"x every sub-database of <=3 (thorough <=4) entries of a 9-entry pool (entry just before the window, on a bucket boundary, inside, last ns of a bucket, in later buckets; two streams; plus a metric-type sample and a non-selected stream in every database); " +
+		"L2 {sum,min,max,avg,count} x {no grouping, by/without in prefix and suffix position} x inner range aggregations x steps x every sub-database of <=3 (4) entries of a 9-entry pool of three streams sharing / not sharing a and b; " +
+		"L3 six comparison operators x thresholds on / between values x position (range aggregation, vector aggregation, inside a vector aggregation, topk); L4 topk/bottomk x k in 1..3 x five inner expressions (ties at the cut occur); " +
+		"L5 ungrouped unwrap, missing / non-numeric / zero / negative unwrapped values, equal timestamps, empty line filters, quantile_over_time, thresholds with > 6 decimals, cluster mode, ranges 20s/30s, further matchers. " +
+		"A case is distinct by (query text, database, from, to, step, cluster) - asserted unique at generation; non-trivial = the reference result is non-empty"
+	r.Assumptions = []string{
+		"chsim implements ClickHouse semantics for the emitted SQL subset (trusted base, see mc/chsim/README.md); cityHash64 of a map is an injective stand-in",
+		"a point of value 0 may be absent from the response (ZeroEaterPlanner / FixPeriodPlanner drop zeros; the statement does not distinguish 0 from no sample)",
+		"step expansion is judged by the statement-level rule only: every point lies on the grid from+i*step, carries the value of a bucket of its series whose closed window [b, b+range] contains t or starts less than one step after t; every non-zero bucket is reported with its own value at each grid point whose whole step lies inside the bucket; at a grid point in the last partial step of a bucket some point of the series exists",
+		"the query window may be widened to whole range buckets (the statement allows it): the reference always evaluates whole buckets",
+		"after `| unwrap v` the label v is not part of the series identity (LogQL definition); samples of type metric are not log entries",
+		"first/last_over_time with equal timestamps, and topk/bottomk with equal values at the cut, accept every choice (but the number of reported series must be exactly k)",
+		"stream selectors are positive matchers on labels every stream has (negative / empty-matching matchers are C07's D27)",
+	}
+	debug.SetGCPercent(400)
+	if pf := os.Getenv("C08_CPUPROFILE"); pf != "" {
+		if f, err := os.Create(pf); err == nil {
+			pprof.StartCPUProfile(f)
+			defer pprof.StopCPUProfile()
+		}
+	}
+
+	if r.Replay != "" {
+		b, err := os.ReadFile(r.Replay)
+		if err != nil {
+			ev.Fatal("cannot read replay: %v", err)
+		}
+		var doc struct {
+			Replay caseSpec `json:"replay"`
+		}
+		if err := json.Unmarshal(b, &doc); err != nil {
+			ev.Fatal("bad replay file: %v", err)
+		}
+		spec := doc.Replay
+		generate(true, nil, false) // registers every database family
+		if spec.Query == nil {
+			ev.Fatal("replay has no query")
+		}
+		spec.Text = spec.Query.String()
+		o := evaluate(spec, true)
+		switch {
+		case o.harness != "":
+			ev.Fatal("%s", o.harness)
+		case o.planErr != "":
+			fmt.Println("planner error (unsupported shape):", o.planErr)
+		case o.unsupp != "":
+			fmt.Println("HARNESS: chsim unsupported:", o.unsupp)
+		case len(o.class) == 0:
+			fmt.Println("verdict: agreement")
+		default:
+			fmt.Println("verdict:", o.what)
+			for _, c := range o.class {
+				r.Violate(c, o.what, spec)
+			}
+		}
+		r.Evaluations = 1
+		r.Finish()
+	}
+
+	// the parent enumerates the list once to count it and to assert that no case is generated twice
+	g := generate(r.Thorough(), nil, true)
+	total := g.n
+	if g.dup != "" {
+		ev.Fatal("generator emitted a case twice: %s", g.dup)
+	}
+	fmt.Printf("C08: %d cases, %d queries, %d databases (%s)\n", total, len(g.queries), len(dbIndex), layerText(g.layerN))
+
+	workers := runtime.NumCPU()
+	if workers > 16 {
+		workers = 16
+	}
+	if s := os.Getenv("C08_WORKERS"); s != "" {
+		fmt.Sscan(s, &workers)
+	}
+	self, err := os.Executable()
+	if err != nil {
+		ev.Fatal("%v", err)
+	}
+	scratch := os.Getenv("VERIF_SCRATCH")
+	if scratch == "" {
+		scratch, err = os.MkdirTemp("/var/tmp", "verif-c08-")
+		if err != nil {
+			ev.Fatal("%v", err)
+		}
+		defer os.RemoveAll(scratch)
+	}
+	// workers stop a little before the parent's own deadline so that their summaries arrive
+	dl := r.Deadline.Add(-3 * time.Second).UnixNano()
+	shards := make([]*shardState, workers)
+	var wg sync.WaitGroup
+	var crashMu sync.Mutex
+	type crash struct {
+		idx        int
+		reproduced int
+		stderr     string
+	}
+	var crashes []crash
+	for w := 0; w < workers; w++ {
+		st := &shardState{shard: w}
+		shards[w] = st
+		wg.Add(1)
+		go func() {
+			defer wg.Done()
+			journal := filepath.Join(scratch, fmt.Sprintf("c08-w%d.journal", st.shard))
+			for attempt := 0; attempt < 50; attempt++ {
+				sum, stderr, err := runWorker(self, r.Thorough(), st.shard, workers, st.from, dl, journal)
+				if sum != nil {
+					st.sums = append(st.sums, sum)
+					return
+				}
+				idx := readJournal(journal)
+				if idx < 0 {
+					st.err = fmt.Errorf("worker %d died outside a case: %v: %s", st.shard, err, tail(stderr, 12))
+					return
+				}
+				// re-run the journalled case alone three times
+				rep := 0
+				var lastErr string
+				for k := 0; k < 3; k++ {
+					args := []string{"--one", fmt.Sprint(idx)}
+					if r.Thorough() {
+						args = append(args, "--tier", "thorough")
+					}
+					c := exec.Command(self, args...)
+					var eb strings.Builder
+					c.Stderr = &eb
+					if e := c.Run(); e != nil {
+						rep++
+						lastErr = eb.String()
+					}
+				}
+				crashMu.Lock()
+				crashes = append(crashes, crash{idx, rep, lastErr})
+				crashMu.Unlock()
+				// the dead worker's counters are lost: the shard restarts behind the crashed case and the run is
+				// reported as not exhaustive
+				st.crashes = append(st.crashes, idx)
+				st.from = idx + 1
+			}
+			st.err = fmt.Errorf("worker %d: too many crashes", st.shard)
+		}()
+	}
+	wg.Wait()
+
+	// fold (deterministic: shards in order, examples by case index)
+	all := newSummary(-1)
+	complete := true
+	for _, st := range shards {
+		if st.err != nil {
+			ev.Fatal("%v", st.err)
+		}
+		if len(st.crashes) > 0 {
+			complete = false
+		}
+	}
+	sort.Slice(shards, func(i, j int) bool { return shards[i].shard < shards[j].shard })
+	for _, st := range shards {
+		for _, s := range st.sums {
+			all.Evaluated += s.Evaluated
+			all.Executed += s.Executed
+			all.Statements += s.Statements
+			all.Shortcut += s.Shortcut
+			all.NonEmpty += s.NonEmpty
+			all.ChsimUnsupp += s.ChsimUnsupp
+			all.Harness += s.Harness
+			if all.ChsimFirst == "" {
+				all.ChsimFirst = s.ChsimFirst
+			}
+			if all.HarnessMsg == "" {
+				all.HarnessMsg = s.HarnessMsg
+			}
+			for k, v := range s.Outcomes {
+				all.Outcomes[k] += v
+			}
+			for k, v := range s.Layers {
+				all.Layers[k] += v
+			}
+			for k, v := range s.Classes {
+				a := all.Classes[k]
+				if a == nil {
+					a = &classAcc{}
+					all.Classes[k] = a
+				}
+				a.Count += v.Count
+				a.Examples = append(a.Examples, v.Examples...)
+			}
+			for k, v := range s.Unsupported {
+				a := all.Unsupported[k]
+				if a == nil {
+					a = &shapeAcc{Idx: v.Idx, Example: v.Example}
+					all.Unsupported[k] = a
+				} else if v.Idx < a.Idx {
+					a.Idx, a.Example = v.Idx, v.Example
+				}
+				a.Count += v.Count
+			}
+			all.Samples = append(all.Samples, s.Samples...)
+			if s.NextIdx >= 0 {
+				complete = false
+			}
+		}
+	}
+	if !complete || all.Evaluated < total {
+		r.Cap(fmt.Sprintf("deadline: %d of %d cases evaluated", all.Evaluated, total))
+	}
+	r.AddEval(all.Executed)
+	for k := range all.Outcomes {
+		r.Outcome(k)
+	}
+	// distinct non-trivial cases = evaluated cases with a non-empty reference result (cases are pairwise distinct)
+	for i := int64(0); i < all.NonEmpty; i++ {
+		r.Distinct(fmt.Sprintf("n%d", i))
+	}
+	for i, s := range all.Samples {
+		if i%2 == 0 {
+			r.Sample(s)
+		}
+	}
+	r.States = all.Executed
+	r.Transitions = all.Statements
+	r.TracesValidated = all.Executed
+	r.Extra["cases_generated"] = total
+	r.Extra["cases_evaluated"] = all.Evaluated
+	r.Extra["programs"] = len(g.queries)
+	r.Extra["databases"] = len(dbIndex)
+	r.Extra["layers_generated"] = g.layerN
+	r.Extra["layers_evaluated"] = all.Layers
+	r.Extra["cases_nonempty_reference"] = all.NonEmpty
+	r.Extra["cases_through_15s_shortcut"] = all.Shortcut
+	r.Extra["sql_statements_executed_by_chsim"] = all.Statements
+	r.Extra["chsim_unsupported"] = all.ChsimUnsupp
+	r.Extra["outcome_counts"] = all.Outcomes
+	r.Extra["workers"] = workers
+	cc := map[string]int{}
+	for k, v := range all.Classes {
+		cc[k] = v.Count
+	}
+	r.Extra["violation_classes"] = cc
+	us := map[string]any{}
+	for k, v := range all.Unsupported {
+		us[k] = map[string]any{"cases": v.Count, "example": v.Example}
+	}
+	r.Extra["unsupported_shapes"] = us
+	r.Explanation = "states = cases executed end to end on the real code (parser, planner, SQL run by chsim, Go post-processors) and compared; transitions = SQL statements executed"
+	var shapes []string
+	for k := range all.Unsupported {
+		shapes = append(shapes, k)
+	}
+	sort.Strings(shapes)
+	for _, k := range shapes {
+		fmt.Printf("unsupported (planner error, not a violation): %s x%d e.g. %s\n", k, all.Unsupported[k].Count, all.Unsupported[k].Example)
+	}
+	var classes []string
+	for k := range all.Classes {
+		classes = append(classes, k)
+	}
+	sort.Strings(classes)
+	for _, k := range classes {
+		a := all.Classes[k]
+		sort.Slice(a.Examples, func(i, j int) bool { return a.Examples[i].Idx < a.Examples[j].Idx })
+		fmt.Printf("class %s: %d cases\n", k, a.Count)
+		for i, e := range a.Examples {
+			if i >= 2 {
+				break
+			}
+			r.Violate(k, e.What, e.Spec)
+		}
+	}
+	sort.Slice(crashes, func(i, j int) bool { return crashes[i].idx < crashes[j].idx })
+	for _, c := range crashes {
+		cg := generate(r.Thorough(), func(i int) bool { return i == c.idx }, false)
+		if len(cg.cases) != 1 {
+			ev.Fatal("crashed case %d cannot be regenerated", c.idx)
+		}
+		spec := cg.cases[0]
+		if c.reproduced == 3 {
+			r.Violate("worker_crash:"+spec.Query.Shape(), fmt.Sprintf("%s on %s from=%ds to=%ds step=%dms kills the process (3/3 re-runs): %s",
+				spec.Text, spec.DB, spec.Params.FromS, spec.Params.ToS, spec.Params.StepMs, tail(c.stderr, 4)), spec)
+		} else {
+			ev.Fatal("worker died at case %d (%s) but the case alone dies only %d/3 times: %s", c.idx, spec.Text, c.reproduced, tail(c.stderr, 8))
+		}
+	}
+	if all.ChsimUnsupp > 0 {
+		ev.Fatal("chsim could not execute %d generated statements (must be 0 on the unchanged tree), first: %s", all.ChsimUnsupp, all.ChsimFirst)
+	}
+	if all.Harness > 0 {
+		ev.Fatal("%d harness errors, first: %s", all.Harness, all.HarnessMsg)
+	}
+	pprof.StopCPUProfile()
+	r.Finish()
+}
+
+func layerText(m map[string]int) string {
+	var p []string
+	for _, k := range sortedKeys(m) {
+		p = append(p, fmt.Sprintf("%s=%d", k, m[k]))
+	}
+	return strings.Join(p, " ")
+}
+
+// probe: ad-hoc queries against one small database (development aid; decides nothing)
 func probe(args []string) {
 	fs := flag.NewFlagSet("probe", flag.ExitOnError)
 	from := fs.Int64("from", 0, "")
@@ -25,9 +757,8 @@ func probe(args []string) {
 		{2, 16 * sec, `{"v":4,"m":"q"}`},
 		{0, 31 * sec, `{"v":5,"m":"k"}`},
 	}}
-	d.build()
 	for _, q := range fs.Args() {
-		r := runImpl(q, Params{*from, *to, *step}, d.ch, *cluster)
+		r := runImpl(q, Params{*from, *to, *step}, d.chdb(), *cluster)
 		fmt.Println("QUERY", q)
 		if *showSQL {
 			for _, s := range r.sql {
@@ -39,12 +770,5 @@ func probe(args []string) {
 		for _, p := range r.points {
 			fmt.Printf("  %s fp=%d t=%d v=%g\n", p.Labels, p.FP, p.T/sec, p.V)
 		}
-	}
-}
-
-func main() {
-	if len(os.Args) > 1 && os.Args[1] == "probe" {
-		probe(os.Args[2:])
-		return
 	}
 }
